@@ -1,9 +1,10 @@
 #!/bin/sh
 # Offline set-up: compile the harness once so the module cache / build cache are warm.
 set -e
-cd /verif/harness
+ROOT=$(cd "$(dirname "$0")" && pwd)
+cd "$ROOT/harness"
 export GOFLAGS=-mod=mod GOPROXY=off GOSUMDB=off GOTOOLCHAIN=local
 cp /repo/go.sum go.sum
-mkdir -p /verif/bin /verif/evidence /verif/replays
-go build -tags verif -o /verif/bin/vcheck ./cmd/vcheck
+mkdir -p "$ROOT/bin" "$ROOT/evidence" "$ROOT/replays"
+go build -tags verif -o "$ROOT/bin"/vcheck ./cmd/vcheck
 echo setup ok
